@@ -777,4 +777,16 @@ def r9_synthesis_registry(a, tier):
     return rep
 
 
-RULES = [r1_child_discovery, r2_traversals, r3_attribute_names, r4_declared_bases, r5_construction, r6_dispatch_namespace, r7_generated_model_classes, r8_dispatch_history, r9_synthesis_registry]
+def r10_no_shared_node_state(a, tier):
+    """what a node answers (its public attributes, hence its children, repr and JSON) is a function of that node: the object-model modules
+    keep no process-wide table that one instance fills and another reads (= C10.R3, the reviewed inventory of process-wide state)"""
+    from . import c10
+    rep = c10.r3_inventory(a, tier)
+    rep.rule = 'C07.R10'
+    for f in rep.findings:
+        f.rule = 'C07.R10'
+    rep.text = '[= C10.R3] ' + rep.text
+    return rep
+
+
+RULES = [r1_child_discovery, r2_traversals, r3_attribute_names, r4_declared_bases, r5_construction, r6_dispatch_namespace, r7_generated_model_classes, r8_dispatch_history, r9_synthesis_registry, r10_no_shared_node_state]
